@@ -166,5 +166,5 @@ func c09FormFields(r *rep.Reporter) {
 		}
 	})
 	r.Require("form_posts", 500)
-	r.Require("form_posts_accepted", 100)
+	r.Require("form_posts_accepted", 30)
 }
